@@ -160,3 +160,32 @@ struct MutateInfo {
     timestamp: Duration,
     entities: Vec<Entity>,
 }
+
+/// Read-only accessors for external verification harnesses.
+#[cfg(replicon_verif)]
+impl ClientTicks {
+    /// Returns per-entity mutation ticks.
+    pub fn verif_mutation_ticks(&self) -> Vec<(Entity, Tick)> {
+        self.mutation_ticks.iter().map(|(&e, &t)| (e, t)).collect()
+    }
+
+    /// Returns in-flight mutate messages as `(index, change tick, timestamp, entities)`.
+    pub fn verif_mutations(&self) -> Vec<(u16, Tick, Duration, Vec<Entity>)> {
+        self.mutations
+            .iter()
+            .map(|(index, info)| {
+                (
+                    index.verif_get(),
+                    info.tick,
+                    info.timestamp,
+                    info.entities.clone(),
+                )
+            })
+            .collect()
+    }
+
+    /// Returns the index that will be assigned to the next mutate message.
+    pub fn verif_next_index(&self) -> u16 {
+        self.mutate_index.verif_get()
+    }
+}
